@@ -169,7 +169,12 @@ def check(run):
                     topo['shared_initial_object'] = topo.get('shared_initial_object', 0) + 1
                 if not (hist == 'two-calls' and fxd[0] and sum(fxd) >= 2 and gi % 2 == 0):
                     with contextlib.redirect_stdout(io.StringIO()):
-                        ret = g.optimize(fix_first_pose=c['fixFirst'], verbose=False)
+                        if c['gj'] == 0 and hist == 'none' and not astro:
+                            # a linear problem is solved by ONE step: a run cut at max_iter=1 (tol 0, silent) ends at the optimum and reports its chi^2
+                            ret = g.optimize(tol=0.0, max_iter=1, fix_first_pose=c['fixFirst'], verbose=False)
+                            topo['one_step_runs'] = topo.get('one_step_runs', 0) + 1
+                        else:
+                            ret = g.optimize(fix_first_pose=c['fixFirst'], verbose=False)
             except Exception as ex:  # noqa
                 run.violation(dict(key, outcome='raised'), 'optimize raised %r | case %r' % (ex, cc), dict(case=cc))
                 continue
